@@ -329,8 +329,8 @@ var ruleSpecs = append([]ruleSpec{
 		rewrite: fromRegexp(replaceRe, 1, 2), class: classPurity},
 	{checker: "valSwap", kind: "stmts",
 		gen: func(p func(...string) string) string {
-			x := p("a", "xs[a]", "xs[fi()]", "s", "xs[0]")
-			y := p("b", "xs[b]", "xs[gi()]", "t", "xs[1]")
+			x := p("a", "xs[a]", "xs[fi()]", "s", "xs[0]", "xs[b]")
+			y := p("b", "xs[b]", "xs[gi()]", "t", "xs[1]", "b")
 			if (x == "s") != (y == "t") {
 				x, y = "a", "b"
 			}
@@ -342,7 +342,16 @@ var ruleSpecs = append([]ruleSpec{
 				return "", "", false
 			}
 			return body, m[1], true
-		}, class: classPurity},
+		},
+		class: func(orig, _ string) string {
+			if impure(orig) {
+				return "impure-operand"
+			}
+			if strings.Contains(orig, "tmp := b; b = xs[b]") {
+				return "index-depends-on-swapped-var"
+			}
+			return "unclassified"
+		}},
 	{checker: "switchTrue", kind: "stmts",
 		gen: func(p func(...string) string) string {
 			return "switch true {\n\tcase " + p("a > b", "fb()", "k") + ":\n\t\tc = 1\n\tcase " + p("a == b", "fb()", "l") + ":\n\t\tc = 2\n\tdefault:\n\t\tc = 3\n\t}"
